@@ -394,3 +394,26 @@ impl Exec {
         Ok(())
     }
 }
+
+/// Data-dependent branches: the model and the library must take the same branch for the case to be typed the
+/// way it was generated. Returns a discard reason when the model's value is within rounding noise of the
+/// threshold (scaled by the magnitude of the terms that produced it; wider in the f32 build) or when the two
+/// sides disagree.
+pub fn branch_guard(m: &refmodel::model::RefState, ex: &Exec, s: &Step) -> Option<String> {
+    if let Step::IfGt { cond, elem, thr, .. } = s {
+        let node = m.node_of(*cond);
+        if *elem >= node.t.vals.len() || *elem >= ex.get(*cond).values().len() {
+            return Some("the forward result does not have the shape the case was typed with".into());
+        }
+        let (mv, vm) = (node.t.vals[*elem].v, node.t.vals[*elem].vm);
+        let rel = if IS_F32 { 1e-3 } else { 1e-6 };
+        if (mv - thr).abs() < rel * (1.0 + vm.abs() + thr.abs()) {
+            return Some("branch value within rounding noise of the threshold".into());
+        }
+        let ev = ex.get(*cond).values()[*elem] as f64;
+        if (mv > *thr) != (ev > *thr) {
+            return Some("the library and the reference take different branches (forward values are judged by C04-C07)".into());
+        }
+    }
+    None
+}
